@@ -139,8 +139,23 @@ PROPS = {
         trusted=["scripted MessageSender + simnet + synctest", "the optimistic-provide stop rule (network size estimate) is not modelled: recipients of optimistic provides are checked by the verdict rules only"],
         shards={"quick": 8, "thorough": 16},
     ),
+    "C15": dict(
+        pkg="./dual", test="TestVerifC15", model="C15", verdict="C15v", level="proof", diff_is_failure=True, stateless=True,
+        accept=lambda m, o: m == "-" or all((" " + t + " ") in (" " + o + " ") for t in m.split(" ")),
+        rule="a case is one operation on a real dual.New DHT (one fake host, one scripted sender per inner DHT): Provide / "
+             "PutValue / GetValue / FindPeer / FindProvidersAsync for every combination of WAN/LAN routing-table emptiness, "
+             "per-DHT results and errors and arrival orders; a referral list learned by the WAN or LAN DHT; an ADD_PROVIDER "
+             "served by the WAN or LAN DHT; the classification filters on one address. Addresses are drawn from every CIDR "
+             "boundary +-1 of the go-multiaddr tables (also in IPv4-mapped IPv6 form), special names, relay-wrapped variants "
+             "and random ones. Compared: which inner DHT saw which RPCs, ADD_PROVIDER payload addresses, returned value / "
+             "addresses / providers, followed referrals and stored addresses; non-trivial = >=3 addresses or ids in the case; "
+             "distinct = case text",
+        trusted=["scripted MessageSender per inner DHT + simnet + synctest", "go-multiaddr CIDR tables transcribed by hand (compared on every run at each boundary)",
+                 "FindProvidersAsync's provider shuffle and channel select are not modelled: the yielded set is compared when it is determined, its size always"],
+        shards={"quick": 8, "thorough": 16},
+    ),
     "C08": dict(
-        pkg=".", test="TestVerifC08", model="C08", verdict="C08v", level="proof", diff_is_failure=True,
+        pkg=".", test="TestVerifC08", model="C08", verdict="C08v", level="proof", diff_is_failure=True, also=["C15"],
         accept=lambda m, o: m == "-" or m == "pseq=*" or (" " + m + " ") in (" " + o + " "),
         rule="a case is a FindProviders / FindProvidersAsync (count 0,1,2,3,K) on a scripted network whose responders name "
              "overlapping provider sets with and without addresses, optionally local provider records, failing/silent "
